@@ -41,6 +41,7 @@ import (
 	"github.com/ryogrid/SamehadaDB/lib/storage/disk"
 	"github.com/ryogrid/SamehadaDB/lib/storage/index"
 	"github.com/ryogrid/SamehadaDB/lib/storage/index/index_constants"
+	"github.com/ryogrid/SamehadaDB/lib/storage/page"
 	"github.com/ryogrid/SamehadaDB/lib/storage/table/column"
 	"github.com/ryogrid/SamehadaDB/lib/storage/table/schema"
 	"github.com/ryogrid/SamehadaDB/lib/storage/tuple"
@@ -332,6 +333,72 @@ func runDB(args []string, in *bufio.Scanner, out *bufio.Writer) {
 				s.db.GetCatalogForTesting().CreateTable(a[0], schema.NewSchema(cols), txn)
 				shi.GetTransactionManager().Commit(s.db.GetCatalogForTesting(), txn)
 				return "ok:"
+			case "ixins", "ixdel", "ixscan", "ixupd", "ixrange":
+				// direct operations on the index object of <table>.<col> (C17): values as i:/f:/s: tokens
+				a := strings.Fields(rest)
+				tm := s.table(a[0])
+				if tm == nil {
+					return "err:notable"
+				}
+				col := uint32(atoi64(a[1]))
+				ix := tm.GetIndex(int(col))
+				if ix == nil {
+					return "err:noindex"
+				}
+				sc := tm.Schema()
+				mk := func(tok string) *tuple.Tuple {
+					vals := make([]types.Value, sc.GetColumnCount())
+					for i := uint32(0); i < sc.GetColumnCount(); i++ {
+						switch sc.GetColumn(i).GetType() {
+						case types.Integer:
+							vals[i] = types.NewInteger(0)
+						case types.Float:
+							vals[i] = types.NewFloat(0)
+						default:
+							vals[i] = types.NewVarchar("")
+						}
+					}
+					vals[col] = parseVal(tok, sc.GetColumn(col).GetType())
+					return tuple.NewTupleFromSchema(vals, sc)
+				}
+				rid := func(p, sl string) page.RID {
+					return page.RID{PageID: types.PageID(int32(atoi64(p))), SlotNum: uint32(atoi64(sl))}
+				}
+				colType := sc.GetColumn(col).GetType()
+				switch f[0] {
+				case "ixins":
+					ix.InsertEntry(mk(a[2]), rid(a[3], a[4]), nil)
+					return "ok"
+				case "ixdel":
+					ix.DeleteEntry(mk(a[2]), rid(a[3], a[4]), nil)
+					return "ok"
+				case "ixupd":
+					ix.UpdateEntry(mk(a[2]), rid(a[3], a[4]), mk(a[5]), rid(a[6], a[7]), nil)
+					return "ok"
+				case "ixscan":
+					var rs []string
+					for _, r := range ix.ScanKey(mk(a[2]), nil) {
+						rs = append(rs, fmt.Sprintf("%d.%d", r.PageID, r.SlotNum))
+					}
+					return "ok:" + strings.Join(rs, ";")
+				default:
+					var lo, hi *tuple.Tuple
+					if a[2] != "-" {
+						lo = mk(a[2])
+					}
+					if a[3] != "-" {
+						hi = mk(a[3])
+					}
+					itr := ix.GetRangeScanIterator(lo, hi, nil)
+					var es []string
+					for done, _, key, r := itr.Next(); !done; done, _, key, r = itr.Next() {
+						if _, isSL := ix.(*index.SkipListIndex); isSL {
+							key = samehada_util.ExtractOrgKeyFromDicOrderComparableEncodedVarchar(key, colType)
+						}
+						es = append(es, fmt.Sprintf("%s@%d.%d", fmtVal(key), r.PageID, r.SlotNum))
+					}
+					return "ok:" + strings.Join(es, ";")
+				}
 			case "tables":
 				var ts []string
 				for _, tm := range s.db.GetCatalogForTesting().GetAllTables() {
